@@ -34,8 +34,14 @@ CLAIMED['C20'] = dict(
     note='filter-logic instances with more than one hash function or non-power-of-two sizes treat MurmurHash3 as one uninterpreted function on both sides '
          '(compositional with the murmur harness); math.log modelled as an arbitrary negative finite double; trusts z3/cvc5 FP semantics.',
     technique='bounded symbolic execution of the real Python source on z3 proxies; BV queries by z3, floating-point sizing queries by cvc5')
+CLAIMED['C08'] = dict(
+    text=_T + 'number codec decided for ALL integers |v| < 2^71 and all minimal strings <= 9 bytes (bijection within the bound); script building / cooked '
+         'iteration / rebuild for token lists <= 3 tokens with symbolic opcodes, ints and boundary-length pushes; and for ALL byte strings of every length '
+         '0..4 (quick) / 0..5 (thorough) raw iteration, every predicate and both sigop counts equal an independent tokeniser (exposed the GetSigOpCount defects, now fixed).',
+    note='longer arbitrary scripts are outside the claim (template-shaped 22..43-byte scripts are covered for the fixed-offset predicates); struct stub exact; '
+         'has_canonical_pushes judged against Bitcoin Core 0.9 HasCanonicalPushes.')
 _UC = 'check not built yet in this round (engine exists; harness pending) - will be claimed or declared not applicable with its real reason'
-for _i in ['C05','C06','C07','C08','C09','C10','C11','C12','C14','C16','C18','C19']:
+for _i in ['C05','C06','C07','C09','C10','C11','C12','C14','C16','C18','C19']:
     NA[_i] = _UC
 NA['C13'] = ('key derivation, signing, verification and point validity are computed by OpenSSL through ctypes: there is no Python or IR to execute '
              'symbolically, and the reference (secp256k1 group law, 256-bit modular inversion) is non-linear 256-bit arithmetic out of reach of z3/cvc5')
